@@ -51,8 +51,31 @@ static CMB_THREAD_LOCAL uint64_t initial_seed = DUMMY_SEED;
  * An implementation of Chris Doty-Humphrey's sfc64. Fast and high-quality.
  * Public domain, see https://pracrand.sourceforge.net
  */
+#ifdef CIMBA_VERIF
+/*
+ * Verification hook H2 (guard CIMBA_VERIF): seams around the raw generator.
+ * Both pointers are NULL by default, in which case the generator is unchanged.
+ *  - cmi_verif_sfc64_pre is called before every raw draw (scheduling point).
+ *  - cmi_verif_sfc64_override may supply the raw word instead of the generator
+ *    (returns nonzero if it did).
+ */
+CMB_THREAD_LOCAL void (*cmi_verif_sfc64_pre)(void) = NULL;
+CMB_THREAD_LOCAL int (*cmi_verif_sfc64_override)(uint64_t *out) = NULL;
+#endif /* CIMBA_VERIF */
+
 uint64_t cmb_random_sfc64(void)
 {
+#ifdef CIMBA_VERIF
+    if (cmi_verif_sfc64_pre != NULL) {
+        (*cmi_verif_sfc64_pre)();
+    }
+    if (cmi_verif_sfc64_override != NULL) {
+        uint64_t verif_word;
+        if ((*cmi_verif_sfc64_override)(&verif_word)) {
+            return verif_word;
+        }
+    }
+#endif /* CIMBA_VERIF */
     const uint64_t tmp = prng_state.a + prng_state.b + prng_state.d++;
     prng_state.a = prng_state.b ^ (prng_state.b >> 11);
     prng_state.b = prng_state.c + (prng_state.c << 3);
